@@ -51,6 +51,9 @@ type VdrSpec struct {
 	// flight finish before mrp looks again; mrp is restarted (retry)
 	FailConsumer string `json:"fail_consumer,omitempty"`
 	FailAt       int    `json:"fail_at,omitempty"`
+	// between the death of mrp (first crash) and its restart a sub-pipeline's
+	// directory is moved out of the pipestance directory and linked back
+	RelocateSub bool `json:"relocate_sub,omitempty"`
 }
 
 // With a linked root: the canonical spelling of the pipestance directory and
@@ -150,6 +153,7 @@ type vdrRun struct {
 	retried     bool
 	faultKey    string
 	nFileLaunch int
+	reloc       *vdrReloc
 }
 
 type vdrSnapshot struct {
@@ -278,6 +282,15 @@ func (v *vdrRun) snapshot(full bool) *vdrSnapshot {
 	}
 	if full && v.r.ps != nil {
 		s.Forks = v.r.ps.VerifVdrView()
+		if v.reloc != nil {
+			kept := s.Forks[:0]
+			for _, f := range s.Forks {
+				if !v.underReloc(v.rel(f.Path)) {
+					kept = append(kept, f)
+				}
+			}
+			s.Forks = kept
+		}
 		s.Nodes = v.r.ps.VerifNodeStates()
 		s.Reports = map[string]json.RawMessage{}
 		s.Outs = map[string]json.RawMessage{}
@@ -766,7 +779,9 @@ func runVdrSpec(spec *VdrSpec, scratch string) *VdrResult {
 	if run.Final == "complete" && v.final != nil {
 		v.written = map[string]string{}
 		for p, c := range run.Written {
-			v.written[v.rel(p)] = c
+			if !v.underReloc(v.rel(p)) {
+				v.written[v.rel(p)] = c
+			}
 		}
 		v.monitors()
 		v.modelChecks()
@@ -799,13 +814,35 @@ func (v *vdrRun) loop() {
 	idle := 0
 	ctx := context.Background()
 	for len(r.Events) < r.Opts.MaxEvents {
+		if v.spec.RelocateSub && v.reloc == nil && len(r.Opts.CrashAt) > 0 && len(r.Events) < 600 {
+			// mrp is interrupted at the first moment from the chosen one on at which
+			// a sub-pipeline has stage files to relocate
+			due := -1
+			for k := range r.Opts.CrashAt {
+				if due < 0 || k < due {
+					due = k
+				}
+			}
+			if len(r.Events) >= due {
+				delete(r.Opts.CrashAt, due)
+				if len(v.relocCandidates()) > 0 {
+					r.Opts.CrashAt[len(r.Events)] = true
+				} else {
+					r.Opts.CrashAt[len(r.Events)+1+r.Rng.Intn(3)] = true
+				}
+			}
+		}
 		if r.Opts.CrashAt != nil && r.Opts.CrashAt[len(r.Events)] {
 			delete(r.Opts.CrashAt, len(r.Events))
 			// storage goroutines of the mrp that is about to die belong to its lifetime
 			time.Sleep(3 * time.Millisecond)
 			r.ps.VerifStorageBarrier()
 			v.observe(false)
-			if err := r.Crash(); err != nil {
+			crash := r.Crash
+			if v.spec.RelocateSub {
+				crash = v.crashRelocateRestart
+			}
+			if err := crash(); err != nil {
 				r.Final = "error:" + err.Error()
 				return
 			}
@@ -846,6 +883,7 @@ func (v *vdrRun) loop() {
 			r.ps.VerifStorageBarrier()
 			v.checkOutside("C14:outside-touched", "by volatile data removal")
 			v.postKill = v.snapshot(true)
+			v.unwatchRelocated()
 			r.ps.PostProcess()
 			v.checkOutside("C14:outside-touched-by-postprocess", "by post-processing")
 			v.final = v.snapshot(true)
